@@ -63,6 +63,11 @@ def _decorate(node, draws, counter):
         if c["kind"] in ("schema", "configtype", "schemalist"):
             c = _decorate(c, draws, counter)
         kids.append(c)
+    if node.get("key") is None and not any(c["key"] == "zzlo" for c in kids):
+        # every root gets one dependent pair: zzlo must not exceed zzhi (zzlo is declared, hence loaded, first)
+        base = {"kind": "int", "req": False, "opts": {}, "default": {"mode": "none"}}
+        kids.append(dict(base, key="zzlo", validator="v_cross", cross_with="zzhi"))
+        kids.append(dict(base, key="zzhi", validator=None))
     ints = [i for i, c in enumerate(kids) if c["kind"] in ("int", "port") and not c.get("validator")]
     if len(ints) >= 2:
         a, b = ints[0], ints[1]
@@ -286,6 +291,15 @@ def run_case(case, R):
         else:
             R.label("load:raised")
         _check_validate(world, cfg, R, "after load")
+
+        # a typed list / dict emptied in place is empty for the purposes of 'required'
+        for p, nd in leaves:
+            if nd["kind"] in ("list", "dict") and nd.get("req"):
+                val = worlds.get_path(cfg, p)
+                if val and hasattr(val, "clear"):
+                    val.clear()
+                    R.label("cleared-in-place")
+        _check_validate(world, cfg, R, "after clearing required containers in place")
 
         # ---- list items are held to the same rule when loaded or inserted -------------------------------------------
         slists = [(p, nd) for p, nd in leaves if nd["kind"] == "schemalist"]
